@@ -145,6 +145,26 @@ pub fn dispatch(f: &[&str]) -> Option<String> {
         "is_empty" => b(sys::is_empty(a(1))),
         // the environment is the process environment (set by the runner, one process per environment)
         "expand" => res_path(sys::expand(a(2))),
+        // the environment changing between two calls of one process: expand_seq <home1|-> <path1> <home2|-> <path2>
+        "expand_seq" => {
+            let old = std::env::var_os("HOME");
+            let set = |h: &str| {
+                if h == "-" {
+                    std::env::remove_var("HOME")
+                } else {
+                    std::env::set_var("HOME", crate::unhex_s(h))
+                }
+            };
+            set(f[1]);
+            let r1 = res_path(sys::expand(a(2)));
+            set(f[3]);
+            let r2 = res_path(sys::expand(a(4)));
+            match old {
+                Some(x) => std::env::set_var("HOME", x),
+                None => std::env::remove_var("HOME"),
+            }
+            format!("{};{}", r1, r2)
+        },
         "abs_m" => {
             let vfs = Memfs::new();
             let cwd = a(2);
